@@ -1,349 +1,440 @@
 import SaModel.Lemmas.C17Range
-import SaModel.Spec.DecodeAt
+import SaModel.Spec.TouchEq
 /-
-C17, `untouched_ok` — `reachEq a a' i`: the views `a` and `a'` agree on everything that is reachable from slot `i`
-(a structural relation on the data, independent of the reader model and of the target):
-
-* same constructor and type tags (primitive type, time unit, time zone, precision / scale, fixed sizes, field names);
-* row `i` itself: the same answer to "is `i` below the declared length", the same validity bit, the same value /
-  offsets `i`, `i + 1` / view descriptor / type id / union offset;
-* the byte buffers of string / binary columns as a whole (a corruption of a data buffer counts as touching every row
-  of that column);
-* recursively the children at the slots row `i` refers to: every field of a struct at `i`, the elements
-  `offsets[i] … offsets[i+1]-1` of a list / map, `i*n … (i+1)*n-1` of a fixed-size list, the dictionary value under
-  the key of row `i`, the union child at position `type id` at slot `offsets[i]`.
-
-Everything else may differ: other rows' values, validity bits, offsets, keys, type ids, the lengths beyond `i`,
-children slots that row `i` does not reference.  `SaModel/Props/C17.lean` (`untouched_ok*`): the reads at `i` are equal.
+C17, `untouched_ok` — inversion of `Spec.touchEqW` (SaModel/Spec/TouchEq.lean), constructor by constructor: the shape
+of the second view and what the relation says about slot `i` (`SlotAgree` for leaf columns, `RowAgree` for the
+containers), the `Option` layer (`touchEqW_weaken`), the element ranges (`rangeEq_elim`).
 -/
 namespace SaModel.Props.C17
 open SaModel SaModel.Read SaModel.Spec
-
-/-- the same answer to `i < len` -/
-def ltEq (i len len' : Nat) : Bool := decide (i < len) == decide (i < len')
-
-/-- the same validity bit (or the same failure to read it) -/
-def bitEq (v v' : Option Bits) (i : Nat) : Bool := decide (isValid v i = isValid v' i)
-
-/-- elements `s, …, s + n - 1` -/
-def allFrom (f : Nat → Bool) (s n : Nat) : Bool := (List.range n).all fun k => f (s + k)
-
-/-- the element range two consecutive offsets designate (empty unless `0 ≤ s ≤ e`) -/
-def offRange (so eo : Option Int) : Nat × Nat :=
-  match so, eo with
-  | some s, some e => if 0 ≤ s ∧ s ≤ e then (s.toNat, e.toNat - s.toNat) else (0, 0)
-  | _, _ => (0, 0)
-
-/-- what `EnumDeserializer::deserialize_enum` looks at in row `i` of the type ids / offsets -/
-def unionHead (types : List Int) (offs : Option (List Int)) (i : Nat) : Option Int × Option (Bool × Option Int) :=
-  (types[i]?, offs.map fun o => (decide (types.length = o.length), o[i]?))
-
-/-- which constructor -/
-def kind : Arr → Nat
-  | .null _ => 0 | .boolean _ _ _ => 1 | .prim _ _ _ => 2 | .time _ _ _ _ => 3 | .timestamp _ _ _ _ => 4
-  | .decimal128 _ _ _ _ => 5 | .bytes _ _ _ _ => 6 | .bytesView _ _ _ _ => 7 | .fixedSizeBinary _ _ _ => 8
-  | .struct _ _ _ => 9 | .list _ _ _ _ _ => 10 | .fixedSizeList _ _ _ _ _ => 11 | .map _ _ _ _ _ => 12
-  | .dictionary _ _ => 13 | .union _ _ _ => 14
-
-mutual
-def reachEq : Arr → Arr → Nat → Bool
-  | .null len, a', i =>
-    (match a' with
-     | .null len' => ltEq i len len'
-     | _ => false)
-  | .boolean len v vals, a', i =>
-    (match a' with
-     | .boolean len' v' vals' => ltEq i len len' && bitEq v v' i && decide (getBit vals i = getBit vals' i)
-     | _ => false)
-  | .prim ty v vals, a', i =>
-    (match a' with
-     | .prim ty' v' vals' => decide (ty = ty') && bitEq v v' i && decide (vals[i]? = vals'[i]?)
-     | _ => false)
-  | .time ty u v vals, a', i =>
-    (match a' with
-     | .time ty' u' v' vals' => decide (ty = ty') && decide (u = u') && bitEq v v' i && decide (vals[i]? = vals'[i]?)
-     | _ => false)
-  | .timestamp u tz v vals, a', i =>
-    (match a' with
-     | .timestamp u' tz' v' vals' => decide (u = u') && decide (tz = tz') && bitEq v v' i && decide (vals[i]? = vals'[i]?)
-     | _ => false)
-  | .decimal128 p s v vals, a', i =>
-    (match a' with
-     | .decimal128 p' s' v' vals' => decide (p = p') && decide (s = s') && bitEq v v' i && decide (vals[i]? = vals'[i]?)
-     | _ => false)
-  | .bytes ty v offs data, a', i =>
-    (match a' with
-     | .bytes ty' v' offs' data' =>
-       decide (ty = ty') && bitEq v v' i && decide (offs[i]? = offs'[i]?) && decide (offs[i + 1]? = offs'[i + 1]?) &&
-       decide (data = data')
-     | _ => false)
-  | .bytesView ty v views buffers, a', i =>
-    (match a' with
-     | .bytesView ty' v' views' buffers' =>
-       decide (ty = ty') && bitEq v v' i && decide (views[i]? = views'[i]?) && decide (buffers = buffers')
-     | _ => false)
-  | .fixedSizeBinary n v data, a', i =>
-    (match a' with
-     | .fixedSizeBinary n' v' data' => decide (n = n') && bitEq v v' i && decide (data = data')
-     | _ => false)
-  | .struct len v fs, a', i =>
-    (match a' with
-     | .struct len' v' fs' => ltEq i len len' && bitEq v v' i && reachFields fs fs' i
-     | _ => false)
-  | .list _ v offs _ el, a', i =>
-    (match a' with
-     | .list _ v' offs' _ el' =>
-       bitEq v v' i && decide (offs[i]? = offs'[i]?) && decide (offs[i + 1]? = offs'[i + 1]?) &&
-       allFrom (fun j => reachEq el el' j) (offRange offs[i]? offs[i + 1]?).1 (offRange offs[i]? offs[i + 1]?).2
-     | _ => false)
-  | .fixedSizeList len v n _ el, a', i =>
-    (match a' with
-     | .fixedSizeList len' v' n' _ el' =>
-       ltEq i len len' && bitEq v v' i && decide (n = n') && allFrom (fun j => reachEq el el' j) (i * n.toNat) n.toNat
-     | _ => false)
-  | .map v offs _ ks vs, a', i =>
-    (match a' with
-     | .map v' offs' _ ks' vs' =>
-       bitEq v v' i && decide (offs[i]? = offs'[i]?) && decide (offs[i + 1]? = offs'[i + 1]?) &&
-       allFrom (fun j => reachEq ks ks' j) (offRange offs[i]? offs[i + 1]?).1 (offRange offs[i]? offs[i + 1]?).2 &&
-       allFrom (fun j => reachEq vs vs' j) (offRange offs[i]? offs[i + 1]?).1 (offRange offs[i]? offs[i + 1]?).2
-     | _ => false)
-  | .dictionary ks vs, a', i =>
-    (match a' with
-     | .dictionary ks' vs' =>
-       reachEq ks ks' i && decide (kind vs = kind vs') &&
-       (match ks with
-        | .prim _ _ vals =>
-          (match vals[i]? with
-           | some k => if 0 ≤ k then reachEq vs vs' k.toNat else true
-           | none => true)
-        | _ => true)
-     | _ => false)
-  | .union types offs fs, a', i =>
-    (match a' with
-     | .union types' offs' fs' =>
-       decide (unionHead types offs i = unionHead types' offs' i) && decide (fs.length = fs'.length) &&
-       (match types[i]?, offs with
-        | some t, some o =>
-          (match o[i]? with
-           | some off => if 0 ≤ t ∧ 0 ≤ off then reachVariant fs fs' t.toNat off.toNat else true
-           | none => true)
-        | _, _ => true)
-     | _ => false)
-/-- the fields of two struct columns, pairwise: same name, children agree at row `i` -/
-def reachFields : ArrFields → ArrFields → Nat → Bool
-  | .nil, fs', _ =>
-    (match fs' with
-     | .nil => true
-     | _ => false)
-  | .cons fm a r, fs', i =>
-    (match fs' with
-     | .cons fm' a' r' => decide (fm.name = fm'.name) && reachEq a a' i && reachFields r r' i
-     | .nil => false)
-/-- the union children at position `k`: same name, agree at slot `j` -/
-def reachVariant : ArrUFields → ArrUFields → Nat → Nat → Bool
-  | .nil, _, _, _ => true
-  | .cons _ fm a _, fs', 0, j =>
-    (match fs' with
-     | .cons _ fm' a' _ => decide (fm.name = fm'.name) && reachEq a a' j
-     | .nil => false)
-  | .cons _ _ _ r, fs', k + 1, j =>
-    (match fs' with
-     | .cons _ _ _ r' => reachVariant r r' k j
-     | .nil => false)
-end
-
-/-! ### inversion: what `reachEq` says per constructor -/
 
 theorem ltEq_iff {i len len' : Nat} (h : ltEq i len len' = true) : (i < len) = (i < len') := by
   unfold ltEq at h
   simp only [beq_iff_eq, decide_eq_decide] at h
   exact propext h
 
-theorem reachEq_null {len : Nat} {a' : Arr} {i : Nat} (h : reachEq (.null len) a' i = true) :
+theorem ge_of_lt_eq {i len len' : Nat} (hl : (i < len) = (i < len')) : (i ≥ len) = (i ≥ len') := by
+  apply propext
+  have := Eq.to_iff hl
+  omega
+
+/-- what `slotEq` says: the same row test; in range the same validity bit; valid the content -/
+def SlotAgree (i len len' : Nat) (v v' : Option Bits) (C : Prop) : Prop :=
+  (i < len) = (i < len') ∧ (i < len → isValid v i = isValid v' i ∧ (isValid v i = .ok true → C))
+
+/-- what `rowEq` says -/
+def RowAgree (o : Bool) (i len len' : Nat) (v v' : Option Bits) (C : Prop) : Prop :=
+  (i < len) = (i < len') ∧ (o = true → i < len → isValid v i = isValid v' i) ∧
+    (i < len → (o = true → isValid v i = .ok true) → C)
+
+theorem whenValid_elim {v : Option Bits} {i : Nat} {c : Bool} (h : whenValid v i c = true) (hv : isValid v i = .ok true) :
+    c = true := by
+  unfold whenValid at h
+  simp only [hv] at h
+  exact h
+
+theorem slotEq_elim {i len len' : Nat} {v v' : Option Bits} {c : Bool} (h : slotEq i len len' v v' c = true) :
+    SlotAgree i len len' v v' (c = true) := by
+  unfold slotEq at h
+  simp only [Bool.and_eq_true] at h
+  refine ⟨ltEq_iff h.1, fun hi => ?_⟩
+  have h2 := h.2
+  simp only [hi, if_true, Bool.and_eq_true, bitEq, decide_eq_true_eq] at h2
+  exact ⟨h2.1, fun hv => whenValid_elim h2.2 hv⟩
+
+theorem rowEq_elim {o : Bool} {i len len' : Nat} {v v' : Option Bits} {c : Bool} (h : rowEq o i len len' v v' c = true) :
+    RowAgree o i len len' v v' (c = true) := by
+  unfold rowEq at h
+  simp only [Bool.and_eq_true] at h
+  refine ⟨ltEq_iff h.1, fun ho hi => ?_, fun hi hv => ?_⟩
+  · have h2 := h.2
+    simp only [hi, ho, if_true, Bool.and_eq_true, bitEq, decide_eq_true_eq] at h2
+    exact h2.1
+  · have h2 := h.2
+    cases o with
+    | false => simp only [hi, if_true, Bool.false_eq_true, if_false] at h2; exact h2
+    | true =>
+      simp only [hi, if_true, Bool.and_eq_true, bitEq, decide_eq_true_eq] at h2
+      exact whenValid_elim h2.2 (hv rfl)
+
+theorem SlotAgree.mono {i len len' : Nat} {v v' : Option Bits} {C D : Prop} (h : SlotAgree i len len' v v' C) (hcd : C → D) :
+    SlotAgree i len len' v v' D :=
+  ⟨h.1, fun hi => ⟨(h.2 hi).1, fun hv => hcd ((h.2 hi).2 hv)⟩⟩
+
+theorem RowAgree.mono {o : Bool} {i len len' : Nat} {v v' : Option Bits} {C D : Prop} (h : RowAgree o i len len' v v' C)
+    (hcd : C → D) : RowAgree o i len len' v v' D :=
+  ⟨h.1, h.2.1, fun hi hv => hcd (h.2.2 hi hv)⟩
+
+/-- the `Option` layer: once the slot is known to be valid the validity bit need not be consulted -/
+theorem RowAgree.weaken {o : Bool} {i len len' : Nat} {v v' : Option Bits} {C : Prop} (h : RowAgree true i len len' v v' C)
+    (hv : i < len → isValid v i = .ok true) : RowAgree o i len len' v v' C :=
+  ⟨h.1, fun _ hi => h.2.1 rfl hi, fun hi _ => h.2.2 hi (fun _ => hv hi)⟩
+
+/-! ### element ranges -/
+
+theorem rangeEqN_elim {f : Nat → Bool} {w : Bool} {len s e : Nat} (h : rangeEqN f w len s e = true) :
+    w = true ∨ ∀ k, k < e - s → f (s + k) = true := by
+  unfold rangeEqN at h
+  split at h
+  · split at h
+    · simp only [List.all_eq_true, List.mem_range] at h
+      exact Or.inr h
+    · exact Or.inl h
+  · exact Or.inr (fun k hk => by omega)
+
+theorem rangeEq_elim {f : Nat → Bool} {w : Bool} {len : Nat} {so eo : Int} {s e : Nat} (h : rangeEq f w len so eo = true)
+    (hs : so = (s : Int)) (he : eo = (e : Int)) : w = true ∨ ∀ k, k < e - s → f (s + k) = true := by
+  subst hs he
+  unfold rangeEq at h
+  simp only [Int.natCast_nonneg, and_self, if_true, Int.toNat_natCast] at h
+  exact rangeEqN_elim h
+
+/-! ### leaf columns -/
+
+theorem touchEqW_null {o : Bool} {p : Target} {len : Nat} {a' : Arr} {i : Nat} (h : touchEqW o p (.null len) a' i = true) :
     ∃ len', a' = .null len' ∧ (i < len) = (i < len') := by
-  unfold reachEq at h
+  unfold touchEqW at h
   split at h
   · exact ⟨_, rfl, ltEq_iff h⟩
   · cases h
 
-theorem reachEq_boolean {len : Nat} {v : Option Bits} {vals : Bits} {a' : Arr} {i : Nat}
-    (h : reachEq (.boolean len v vals) a' i = true) :
-    ∃ len' v' vals', a' = .boolean len' v' vals' ∧ (i < len) = (i < len') ∧ isValid v i = isValid v' i ∧
-      getBit vals i = getBit vals' i := by
-  unfold reachEq at h
+theorem touchEqW_boolean {o : Bool} {p : Target} {len : Nat} {v : Option Bits} {vals : Bits} {a' : Arr} {i : Nat}
+    (h : touchEqW o p (.boolean len v vals) a' i = true) :
+    ∃ len' v' vals', a' = .boolean len' v' vals' ∧ SlotAgree i len len' v v' (getBit vals i = getBit vals' i) := by
+  unfold touchEqW at h
   split at h
-  · simp only [Bool.and_eq_true, decide_eq_true_eq, bitEq] at h
-    exact ⟨_, _, _, rfl, ltEq_iff h.1.1, h.1.2, h.2⟩
+  · exact ⟨_, _, _, rfl, (slotEq_elim h).mono (fun hc => by simpa using hc)⟩
   · cases h
 
-theorem reachEq_prim {ty : PrimTy} {v : Option Bits} {vals : List Int} {a' : Arr} {i : Nat}
-    (h : reachEq (.prim ty v vals) a' i = true) :
-    ∃ v' vals', a' = .prim ty v' vals' ∧ isValid v i = isValid v' i ∧ vals[i]? = vals'[i]? := by
-  unfold reachEq at h
-  split at h
-  · simp only [Bool.and_eq_true, decide_eq_true_eq, bitEq] at h
-    obtain ⟨⟨rfl, hv⟩, hx⟩ := h
-    exact ⟨_, _, rfl, hv, hx⟩
-  · cases h
-
-theorem reachEq_time {ty : TimeTy} {u : TimeUnit} {v : Option Bits} {vals : List Int} {a' : Arr} {i : Nat}
-    (h : reachEq (.time ty u v vals) a' i = true) :
-    ∃ v' vals', a' = .time ty u v' vals' ∧ isValid v i = isValid v' i ∧ vals[i]? = vals'[i]? := by
-  unfold reachEq at h
-  split at h
-  · simp only [Bool.and_eq_true, decide_eq_true_eq, bitEq] at h
-    obtain ⟨⟨⟨rfl, rfl⟩, hv⟩, hx⟩ := h
-    exact ⟨_, _, rfl, hv, hx⟩
-  · cases h
-
-theorem reachEq_timestamp {u : TimeUnit} {tz : Option String} {v : Option Bits} {vals : List Int} {a' : Arr} {i : Nat}
-    (h : reachEq (.timestamp u tz v vals) a' i = true) :
-    ∃ v' vals', a' = .timestamp u tz v' vals' ∧ isValid v i = isValid v' i ∧ vals[i]? = vals'[i]? := by
-  unfold reachEq at h
-  split at h
-  · simp only [Bool.and_eq_true, decide_eq_true_eq, bitEq] at h
-    obtain ⟨⟨⟨rfl, rfl⟩, hv⟩, hx⟩ := h
-    exact ⟨_, _, rfl, hv, hx⟩
-  · cases h
-
-theorem reachEq_decimal {p : Nat} {s : Int} {v : Option Bits} {vals : List Int} {a' : Arr} {i : Nat}
-    (h : reachEq (.decimal128 p s v vals) a' i = true) :
-    ∃ v' vals', a' = .decimal128 p s v' vals' ∧ isValid v i = isValid v' i ∧ vals[i]? = vals'[i]? := by
-  unfold reachEq at h
-  split at h
-  · simp only [Bool.and_eq_true, decide_eq_true_eq, bitEq] at h
-    obtain ⟨⟨⟨rfl, rfl⟩, hv⟩, hx⟩ := h
-    exact ⟨_, _, rfl, hv, hx⟩
-  · cases h
-
-theorem reachEq_bytes {ty : BytesTy} {v : Option Bits} {offs : List Int} {data : Bytes} {a' : Arr} {i : Nat}
-    (h : reachEq (.bytes ty v offs data) a' i = true) :
-    ∃ v' offs', a' = .bytes ty v' offs' data ∧ isValid v i = isValid v' i ∧ offs[i]? = offs'[i]? ∧
-      offs[i + 1]? = offs'[i + 1]? := by
-  unfold reachEq at h
-  split at h
-  · simp only [Bool.and_eq_true, decide_eq_true_eq, bitEq] at h
-    obtain ⟨⟨⟨⟨rfl, hv⟩, h0⟩, h1⟩, rfl⟩ := h
-    exact ⟨_, _, rfl, hv, h0, h1⟩
-  · cases h
-
-theorem reachEq_bytesView {ty : ViewTy} {v : Option Bits} {views : List Nat} {buffers : List Bytes} {a' : Arr} {i : Nat}
-    (h : reachEq (.bytesView ty v views buffers) a' i = true) :
-    ∃ v' views', a' = .bytesView ty v' views' buffers ∧ isValid v i = isValid v' i ∧ views[i]? = views'[i]? := by
-  unfold reachEq at h
-  split at h
-  · simp only [Bool.and_eq_true, decide_eq_true_eq, bitEq] at h
-    obtain ⟨⟨⟨rfl, hv⟩, h0⟩, rfl⟩ := h
-    exact ⟨_, _, rfl, hv, h0⟩
-  · cases h
-
-theorem reachEq_fsb {n : Int} {v : Option Bits} {data : Bytes} {a' : Arr} {i : Nat}
-    (h : reachEq (.fixedSizeBinary n v data) a' i = true) :
-    ∃ v', a' = .fixedSizeBinary n v' data ∧ isValid v i = isValid v' i := by
-  unfold reachEq at h
-  split at h
-  · simp only [Bool.and_eq_true, decide_eq_true_eq, bitEq] at h
-    obtain ⟨⟨rfl, hv⟩, rfl⟩ := h
-    exact ⟨_, rfl, hv⟩
-  · cases h
-
-theorem reachEq_struct {len : Nat} {v : Option Bits} {fs : ArrFields} {a' : Arr} {i : Nat}
-    (h : reachEq (.struct len v fs) a' i = true) :
-    ∃ len' v' fs', a' = .struct len' v' fs' ∧ (i < len) = (i < len') ∧ isValid v i = isValid v' i ∧
-      reachFields fs fs' i = true := by
-  unfold reachEq at h
-  split at h
-  · simp only [Bool.and_eq_true, decide_eq_true_eq, bitEq] at h
-    exact ⟨_, _, _, rfl, ltEq_iff h.1.1, h.1.2, h.2⟩
-  · cases h
-
-theorem allFrom_elim {f : Nat → Bool} {s n : Nat} (h : allFrom f s n = true) : ∀ k, k < n → f (s + k) = true := by
-  unfold allFrom at h
-  simp only [List.all_eq_true, List.mem_range] at h
-  exact h
-
-theorem reachEq_list {l : Bool} {v : Option Bits} {offs : List Int} {fm : FieldMeta} {el : Arr} {a' : Arr} {i : Nat}
-    (h : reachEq (.list l v offs fm el) a' i = true) :
-    ∃ l' v' offs' fm' el', a' = .list l' v' offs' fm' el' ∧ isValid v i = isValid v' i ∧ offs[i]? = offs'[i]? ∧
-      offs[i + 1]? = offs'[i + 1]? ∧
-      ∀ k, k < (offRange offs[i]? offs[i + 1]?).2 → reachEq el el' ((offRange offs[i]? offs[i + 1]?).1 + k) = true := by
-  unfold reachEq at h
-  split at h
-  · simp only [Bool.and_eq_true, decide_eq_true_eq, bitEq] at h
-    exact ⟨_, _, _, _, _, rfl, h.1.1.1, h.1.1.2, h.1.2, allFrom_elim h.2⟩
-  · cases h
-
-theorem reachEq_fsl {len : Nat} {v : Option Bits} {n : Int} {fm : FieldMeta} {el : Arr} {a' : Arr} {i : Nat}
-    (h : reachEq (.fixedSizeList len v n fm el) a' i = true) :
-    ∃ len' v' fm' el', a' = .fixedSizeList len' v' n fm' el' ∧ (i < len) = (i < len') ∧ isValid v i = isValid v' i ∧
-      ∀ k, k < n.toNat → reachEq el el' (i * n.toNat + k) = true := by
-  unfold reachEq at h
-  split at h
-  · simp only [Bool.and_eq_true, decide_eq_true_eq, bitEq] at h
-    obtain ⟨⟨⟨hl, hv⟩, rfl⟩, hel⟩ := h
-    exact ⟨_, _, _, _, rfl, ltEq_iff hl, hv, allFrom_elim hel⟩
-  · cases h
-
-theorem reachEq_map {v : Option Bits} {offs : List Int} {mm : MapMeta} {ks vs : Arr} {a' : Arr} {i : Nat}
-    (h : reachEq (.map v offs mm ks vs) a' i = true) :
-    ∃ v' offs' mm' ks' vs', a' = .map v' offs' mm' ks' vs' ∧ isValid v i = isValid v' i ∧ offs[i]? = offs'[i]? ∧
-      offs[i + 1]? = offs'[i + 1]? ∧
-      (∀ k, k < (offRange offs[i]? offs[i + 1]?).2 → reachEq ks ks' ((offRange offs[i]? offs[i + 1]?).1 + k) = true) ∧
-      (∀ k, k < (offRange offs[i]? offs[i + 1]?).2 → reachEq vs vs' ((offRange offs[i]? offs[i + 1]?).1 + k) = true) := by
-  unfold reachEq at h
-  split at h
-  · simp only [Bool.and_eq_true, decide_eq_true_eq, bitEq] at h
-    exact ⟨_, _, _, _, _, rfl, h.1.1.1.1, h.1.1.1.2, h.1.1.2, allFrom_elim h.1.2, allFrom_elim h.2⟩
-  · cases h
-
-theorem reachEq_dictionary {ks vs : Arr} {a' : Arr} {i : Nat} (h : reachEq (.dictionary ks vs) a' i = true) :
-    ∃ ks' vs', a' = .dictionary ks' vs' ∧ reachEq ks ks' i = true ∧ kind vs = kind vs' ∧
-      ∀ ty kv vals k, ks = .prim ty kv vals → vals[i]? = some k → 0 ≤ k → reachEq vs vs' k.toNat = true := by
-  unfold reachEq at h
+theorem touchEqW_prim {o : Bool} {p : Target} {ty : PrimTy} {v : Option Bits} {vals : List Int} {a' : Arr} {i : Nat}
+    (h : touchEqW o p (.prim ty v vals) a' i = true) :
+    ∃ v' vals', a' = .prim ty v' vals' ∧ SlotAgree i vals.length vals'.length v v' (vals[i]? = vals'[i]?) := by
+  unfold touchEqW at h
   split at h
   · simp only [Bool.and_eq_true, decide_eq_true_eq] at h
-    refine ⟨_, _, rfl, h.1.1, h.1.2, ?_⟩
-    intro ty kv vals k hks hk h0
-    have h2 := h.2
-    subst hks
-    simp only [hk, h0, if_true] at h2
-    exact h2
+    obtain ⟨rfl, hs⟩ := h
+    exact ⟨_, _, rfl, (slotEq_elim hs).mono (fun hc => by simpa using hc)⟩
   · cases h
 
-theorem reachEq_union {types : List Int} {offs : Option (List Int)} {fs : ArrUFields} {a' : Arr} {i : Nat}
-    (h : reachEq (.union types offs fs) a' i = true) :
+theorem touchEqW_time {o : Bool} {p : Target} {ty : TimeTy} {u : TimeUnit} {v : Option Bits} {vals : List Int} {a' : Arr}
+    {i : Nat} (h : touchEqW o p (.time ty u v vals) a' i = true) :
+    ∃ v' vals', a' = .time ty u v' vals' ∧ SlotAgree i vals.length vals'.length v v' (vals[i]? = vals'[i]?) := by
+  unfold touchEqW at h
+  split at h
+  · simp only [Bool.and_eq_true, decide_eq_true_eq] at h
+    obtain ⟨⟨rfl, rfl⟩, hs⟩ := h
+    exact ⟨_, _, rfl, (slotEq_elim hs).mono (fun hc => by simpa using hc)⟩
+  · cases h
+
+theorem touchEqW_timestamp {o : Bool} {p : Target} {u : TimeUnit} {tz : Option String} {v : Option Bits} {vals : List Int}
+    {a' : Arr} {i : Nat} (h : touchEqW o p (.timestamp u tz v vals) a' i = true) :
+    ∃ v' vals', a' = .timestamp u tz v' vals' ∧ SlotAgree i vals.length vals'.length v v' (vals[i]? = vals'[i]?) := by
+  unfold touchEqW at h
+  split at h
+  · simp only [Bool.and_eq_true, decide_eq_true_eq] at h
+    obtain ⟨⟨rfl, rfl⟩, hs⟩ := h
+    exact ⟨_, _, rfl, (slotEq_elim hs).mono (fun hc => by simpa using hc)⟩
+  · cases h
+
+theorem touchEqW_decimal {o : Bool} {p : Target} {pr : Nat} {s : Int} {v : Option Bits} {vals : List Int} {a' : Arr}
+    {i : Nat} (h : touchEqW o p (.decimal128 pr s v vals) a' i = true) :
+    ∃ v' vals', a' = .decimal128 pr s v' vals' ∧ SlotAgree i vals.length vals'.length v v' (vals[i]? = vals'[i]?) := by
+  unfold touchEqW at h
+  split at h
+  · simp only [Bool.and_eq_true, decide_eq_true_eq] at h
+    obtain ⟨⟨rfl, rfl⟩, hs⟩ := h
+    exact ⟨_, _, rfl, (slotEq_elim hs).mono (fun hc => by simpa using hc)⟩
+  · cases h
+
+theorem touchEqW_bytes {o : Bool} {p : Target} {ty : BytesTy} {v : Option Bits} {offs : List Int} {data : Bytes} {a' : Arr}
+    {i : Nat} (h : touchEqW o p (.bytes ty v offs data) a' i = true) :
+    ∃ v' offs' data', a' = .bytes ty v' offs' data' ∧
+      SlotAgree i (offs.length - 1) (offs'.length - 1) v v'
+        (offs[i]? = offs'[i]? ∧ offs[i + 1]? = offs'[i + 1]? ∧
+          byteSlice data (offs.getD i 0) (offs.getD (i + 1) 0) = byteSlice data' (offs.getD i 0) (offs.getD (i + 1) 0)) := by
+  unfold touchEqW at h
+  split at h
+  · simp only [Bool.and_eq_true, decide_eq_true_eq] at h
+    obtain ⟨rfl, hs⟩ := h
+    exact ⟨_, _, _, rfl, (slotEq_elim hs).mono (fun hc => by
+      simp only [Bool.and_eq_true, decide_eq_true_eq] at hc; exact ⟨hc.1.1, hc.1.2, hc.2⟩)⟩
+  · cases h
+
+theorem touchEqW_bytesView {o : Bool} {p : Target} {ty : ViewTy} {v : Option Bits} {views : List Nat} {buffers : List Bytes}
+    {a' : Arr} {i : Nat} (h : touchEqW o p (.bytesView ty v views buffers) a' i = true) :
+    ∃ v' views' buffers', a' = .bytesView ty v' views' buffers' ∧
+      SlotAgree i views.length views'.length v v'
+        (views[i]? = views'[i]? ∧ viewSlice buffers (views.getD i 0) = viewSlice buffers' (views.getD i 0)) := by
+  unfold touchEqW at h
+  split at h
+  · simp only [Bool.and_eq_true, decide_eq_true_eq] at h
+    obtain ⟨rfl, hs⟩ := h
+    exact ⟨_, _, _, rfl, (slotEq_elim hs).mono (fun hc => by
+      simp only [Bool.and_eq_true, decide_eq_true_eq] at hc; exact hc)⟩
+  · cases h
+
+/-- a fixed-size binary column: the buffers are both not divisible into rows, or both are and slot `i` agrees -/
+def FsbAgree (n : Int) (v v' : Option Bits) (data data' : Bytes) (i : Nat) : Prop :=
+  (fsbLen n data = none ∧ fsbLen n data' = none) ∨
+  ∃ len len', fsbLen n data = some len ∧ fsbLen n data' = some len' ∧
+    SlotAgree i len len' v v' ((data.drop (i * n.toNat)).take n.toNat = (data'.drop (i * n.toNat)).take n.toNat)
+
+theorem touchEqW_fsb {o : Bool} {p : Target} {n : Int} {v : Option Bits} {data : Bytes} {a' : Arr} {i : Nat}
+    (h : touchEqW o p (.fixedSizeBinary n v data) a' i = true) :
+    ∃ v' data', a' = .fixedSizeBinary n v' data' ∧ FsbAgree n v v' data data' i := by
+  unfold touchEqW at h
+  split at h
+  · simp only [Bool.and_eq_true, decide_eq_true_eq] at h
+    obtain ⟨rfl, hs⟩ := h
+    refine ⟨_, _, rfl, ?_⟩
+    split at hs
+    · rename_i len len' h1 h2
+      exact Or.inr ⟨len, len', h1, h2, (slotEq_elim hs).mono (fun hc => by simpa using hc)⟩
+    · rename_i h1 h2
+      exact Or.inl ⟨h1, h2⟩
+    · cases hs
+  · cases h
+
+/-! ### containers -/
+
+/-- what a read of target `p` looks at in the fields of a struct column -/
+def structContent (p : Target) (fs fs' : ArrFields) (i : Nat) : Bool :=
+  match p with
+  | .struct tfs => namedEq tfs fs fs' i
+  | .tuple ts | .tupleStruct ts => tupleEq ts fs fs' i
+  | .map _ w => allEq w fs fs' i
+  | .any | .ignored => allEq .any fs fs' i
+  | _ => true
+
+theorem touchEqW_struct {o : Bool} {p : Target} {len : Nat} {v : Option Bits} {fs : ArrFields} {a' : Arr} {i : Nat}
+    (h : touchEqW o p (.struct len v fs) a' i = true) :
+    ∃ len' v' fs', a' = .struct len' v' fs' ∧ RowAgree o i len len' v v' (structContent p fs fs' i = true) := by
+  unfold touchEqW at h
+  split at h
+  · exact ⟨_, _, _, rfl, rowEq_elim h⟩
+  · cases h
+
+/-- the elements of a list-like column: the children are equal, or every designated element agrees -/
+def ElemsAgree (et : Target) (el el' : Arr) (s e : Nat) : Prop :=
+  el = el' ∨ ∀ k, k < e - s → touchEq et el el' (s + k) = true
+
+/-- what a read of target `p` looks at in row `i` of a list column -/
+def ListAgree (p : Target) (offs offs' : List Int) (el el' : Arr) (i : Nat) : Prop :=
+  readsList p = true → offs[i]? = offs'[i]? ∧ offs[i + 1]? = offs'[i + 1]? ∧
+    ∀ (et : Target) (s e : Nat), elemTarget? p = some et → offs[i]? = some (s : Int) → offs[i + 1]? = some (e : Int) → ElemsAgree et el el' s e
+
+theorem getD_of_getElem? {l : List Int} {k : Nat} {x : Int} (h : l[k]? = some x) : l.getD k 0 = x := by
+  simp [List.getD, h]
+
+theorem touchEqW_list {o : Bool} {p : Target} {l : Bool} {v : Option Bits} {offs : List Int} {fm : FieldMeta} {el : Arr}
+    {a' : Arr} {i : Nat} (h : touchEqW o p (.list l v offs fm el) a' i = true) :
+    ∃ l' v' offs' fm' el', a' = .list l' v' offs' fm' el' ∧
+      RowAgree o i (offs.length - 1) (offs'.length - 1) v v' (ListAgree p offs offs' el el' i) := by
+  unfold touchEqW at h
+  split at h
+  · refine ⟨_, _, _, _, _, rfl, (rowEq_elim h).mono (fun hc => ?_)⟩
+    intro hr
+    simp only [hr, Bool.not_true, Bool.false_or, Bool.and_eq_true, decide_eq_true_eq] at hc
+    refine ⟨hc.1.1, hc.1.2, ?_⟩
+    intro et s e het hs he
+    have h3 := hc.2
+    simp only [het] at h3
+    rcases rangeEq_elim h3 (getD_of_getElem? hs) (getD_of_getElem? he) with hw | hall
+    · exact Or.inl (by simpa using hw)
+    · exact Or.inr hall
+  · cases h
+
+/-- what a read of target `p` looks at in row `i` of a fixed-size-list column -/
+def FslAgree (p : Target) (n : Int) (el el' : Arr) (i : Nat) : Prop :=
+  ∀ et, fslElemTarget? p = some et → 0 ≤ n → ElemsAgree et el el' (i * n.toNat) ((i + 1) * n.toNat)
+
+theorem touchEqW_fsl {o : Bool} {p : Target} {len : Nat} {v : Option Bits} {n : Int} {fm : FieldMeta} {el : Arr} {a' : Arr}
+    {i : Nat} (h : touchEqW o p (.fixedSizeList len v n fm el) a' i = true) :
+    ∃ len' v' fm' el', a' = .fixedSizeList len' v' n fm' el' ∧ RowAgree o i len len' v v' (FslAgree p n el el' i) := by
+  unfold touchEqW at h
+  split at h
+  · simp only [Bool.and_eq_true, decide_eq_true_eq] at h
+    obtain ⟨rfl, hs⟩ := h
+    refine ⟨_, _, _, _, rfl, (rowEq_elim hs).mono (fun hc => ?_)⟩
+    intro et het hn
+    simp only [het, hn, if_true] at hc
+    rcases rangeEqN_elim hc with hw | hall
+    · exact Or.inl (by simpa using hw)
+    · exact Or.inr hall
+  · cases h
+
+/-- what a read of target `p` looks at in row `i` of a map column -/
+def MapAgree (p : Target) (offs offs' : List Int) (ks ks' vs vs' : Arr) (i : Nat) : Prop :=
+  ∀ kt vt, entryTargets? p = some (kt, vt) → offs[i]? = offs'[i]? ∧ offs[i + 1]? = offs'[i + 1]? ∧
+    ∀ (s e : Nat), offs[i]? = some (s : Int) → offs[i + 1]? = some (e : Int) → ElemsAgree kt ks ks' s e ∧ ElemsAgree vt vs vs' s e
+
+theorem touchEqW_map {o : Bool} {p : Target} {v : Option Bits} {offs : List Int} {mm : MapMeta} {ks vs : Arr} {a' : Arr}
+    {i : Nat} (h : touchEqW o p (.map v offs mm ks vs) a' i = true) :
+    ∃ v' offs' mm' ks' vs', a' = .map v' offs' mm' ks' vs' ∧
+      RowAgree o i (offs.length - 1) (offs'.length - 1) v v' (MapAgree p offs offs' ks ks' vs vs' i) := by
+  unfold touchEqW at h
+  split at h
+  · refine ⟨_, _, _, _, _, rfl, (rowEq_elim h).mono (fun hc => ?_)⟩
+    intro kt vt het
+    simp only [het, Bool.and_eq_true, decide_eq_true_eq] at hc
+    refine ⟨hc.1.1.1, hc.1.1.2, ?_⟩
+    intro s e hs he
+    constructor
+    · rcases rangeEq_elim hc.1.2 (getD_of_getElem? hs) (getD_of_getElem? he) with hw | hall
+      · exact Or.inl (by simpa using hw)
+      · exact Or.inr hall
+    · rcases rangeEq_elim hc.2 (getD_of_getElem? hs) (getD_of_getElem? he) with hw | hall
+      · exact Or.inl (by simpa using hw)
+      · exact Or.inr hall
+  · cases h
+
+theorem touchEqW_dictionary {o : Bool} {p : Target} {ks vs : Arr} {a' : Arr} {i : Nat}
+    (h : touchEqW o p (.dictionary ks vs) a' i = true) :
+    ∃ ks' vs', a' = .dictionary ks' vs' ∧ kind ks = kind ks' ∧ kind vs = kind vs' ∧
+      (∀ ty kv kvals, ks = .prim ty kv kvals → touchEqW false p ks ks' i = true) ∧
+      (∀ ty kv kvals vty vv voffs vdata k, ks = .prim ty kv kvals → vs = .bytes vty vv voffs vdata →
+        isValid kv i = .ok true → kvals[i]? = some k → 0 ≤ k → touchEqW false p vs vs' k.toNat = true) := by
+  unfold touchEqW at h
+  split at h
+  · simp only [Bool.and_eq_true, beq_iff_eq] at h
+    refine ⟨_, _, rfl, h.1.1, h.1.2, ?_, ?_⟩
+    · intro ty kv kvals hks
+      have h2 := h.2
+      subst hks
+      simp only [Bool.and_eq_true] at h2
+      exact h2.1
+    · intro ty kv kvals vty vv voffs vdata k hks hvs hv hk h0
+      have h2 := h.2
+      subst hks hvs
+      simp only [Bool.and_eq_true, hv, hk, h0, if_true] at h2
+      exact h2.2
+  · cases h
+
+theorem touchEqW_union {o : Bool} {p : Target} {types : List Int} {offs : Option (List Int)} {fs : ArrUFields} {a' : Arr}
+    {i : Nat} (h : touchEqW o p (.union types offs fs) a' i = true) :
     ∃ types' offs' fs', a' = .union types' offs' fs' ∧ unionHead types offs i = unionHead types' offs' i ∧
       fs.length = fs'.length ∧
-      ∀ t o off, types[i]? = some t → offs = some o → o[i]? = some off → 0 ≤ t → 0 ≤ off →
-        reachVariant fs fs' t.toNat off.toNat = true := by
-  unfold reachEq at h
+      ∀ t ofs off, types[i]? = some t → offs = some ofs → ofs[i]? = some off → 0 ≤ t → 0 ≤ off →
+        variantEq (variantTarget? p t.toNat) fs fs' t.toNat off.toNat = true := by
+  unfold touchEqW at h
   split at h
   · simp only [Bool.and_eq_true, decide_eq_true_eq] at h
     refine ⟨_, _, _, rfl, h.1.1, h.1.2, ?_⟩
-    intro t o off ht ho hoff h0 h1
+    intro t ofs off ht ho hoff h0 h1
     have h2 := h.2
     subst ho
     simp only [ht, hoff, h0, h1, and_self, if_true] at h2
     exact h2
   · cases h
 
-theorem reachEq_kind {a a' : Arr} {i : Nat} (h : reachEq a a' i = true) : kind a = kind a' := by
+theorem touchEqW_kind {o : Bool} {p : Target} {a a' : Arr} {i : Nat} (h : touchEqW o p a a' i = true) : kind a = kind a' := by
   cases a with
-  | null len => obtain ⟨_, rfl, _⟩ := reachEq_null h; rfl
-  | boolean len v vals => obtain ⟨_, _, _, rfl, _⟩ := reachEq_boolean h; rfl
-  | prim ty v vals => obtain ⟨_, _, rfl, _⟩ := reachEq_prim h; rfl
-  | time ty u v vals => obtain ⟨_, _, rfl, _⟩ := reachEq_time h; rfl
-  | timestamp u tz v vals => obtain ⟨_, _, rfl, _⟩ := reachEq_timestamp h; rfl
-  | decimal128 p s v vals => obtain ⟨_, _, rfl, _⟩ := reachEq_decimal h; rfl
-  | bytes ty v offs data => obtain ⟨_, _, rfl, _⟩ := reachEq_bytes h; rfl
-  | bytesView ty v views buffers => obtain ⟨_, _, rfl, _⟩ := reachEq_bytesView h; rfl
-  | fixedSizeBinary n v data => obtain ⟨_, rfl, _⟩ := reachEq_fsb h; rfl
-  | struct len v fs => obtain ⟨_, _, _, rfl, _⟩ := reachEq_struct h; rfl
-  | list l v offs fm el => obtain ⟨_, _, _, _, _, rfl, _⟩ := reachEq_list h; rfl
-  | fixedSizeList len v n fm el => obtain ⟨_, _, _, _, rfl, _⟩ := reachEq_fsl h; rfl
-  | map v offs mm ks vs => obtain ⟨_, _, _, _, _, rfl, _⟩ := reachEq_map h; rfl
-  | dictionary ks vs => obtain ⟨_, _, rfl, _⟩ := reachEq_dictionary h; rfl
-  | union types offs fs => obtain ⟨_, _, _, rfl, _⟩ := reachEq_union h; rfl
+  | null len => obtain ⟨_, rfl, _⟩ := touchEqW_null h; rfl
+  | boolean len v vals => obtain ⟨_, _, _, rfl, _⟩ := touchEqW_boolean h; rfl
+  | prim ty v vals => obtain ⟨_, _, rfl, _⟩ := touchEqW_prim h; rfl
+  | time ty u v vals => obtain ⟨_, _, rfl, _⟩ := touchEqW_time h; rfl
+  | timestamp u tz v vals => obtain ⟨_, _, rfl, _⟩ := touchEqW_timestamp h; rfl
+  | decimal128 pr s v vals => obtain ⟨_, _, rfl, _⟩ := touchEqW_decimal h; rfl
+  | bytes ty v offs data => obtain ⟨_, _, _, rfl, _⟩ := touchEqW_bytes h; rfl
+  | bytesView ty v views buffers => obtain ⟨_, _, _, rfl, _⟩ := touchEqW_bytesView h; rfl
+  | fixedSizeBinary n v data => obtain ⟨_, _, rfl, _⟩ := touchEqW_fsb h; rfl
+  | struct len v fs => obtain ⟨_, _, _, rfl, _⟩ := touchEqW_struct h; rfl
+  | list l v offs fm el => obtain ⟨_, _, _, _, _, rfl, _⟩ := touchEqW_list h; rfl
+  | fixedSizeList len v n fm el => obtain ⟨_, _, _, _, rfl, _⟩ := touchEqW_fsl h; rfl
+  | map v offs mm ks vs => obtain ⟨_, _, _, _, _, rfl, _⟩ := touchEqW_map h; rfl
+  | dictionary ks vs => obtain ⟨_, _, rfl, _⟩ := touchEqW_dictionary h; rfl
+  | union types offs fs => obtain ⟨_, _, _, rfl, _⟩ := touchEqW_union h; rfl
+
+/-! ### the target layers -/
+
+theorem touchEq_newtype (t : Target) (a a' : Arr) (i : Nat) : touchEq (.newtype t) a a' i = touchEq t a a' i := rfl
+
+theorem touchEq_option (t : Target) (a a' : Arr) (i : Nat) :
+    touchEq (.option t) a a' i = touchEqW true (peelTarget t).1 a a' i := by
+  unfold touchEq optOf
+  simp only [peelTarget, Bool.true_or]
+
+theorem touchEq_any (a a' : Arr) (i : Nat) : touchEq .any a a' i = touchEqW true .any a a' i := by
+  unfold touchEq optOf
+  simp [peelTarget, isAnyLike]
+
+/-! ### fields of struct columns, children of union columns -/
+
+theorem allEq_nil {t : Target} {fs' : ArrFields} {i : Nat} (h : allEq t .nil fs' i = true) : fs' = .nil := by
+  unfold allEq at h
+  split at h
+  · rfl
+  · cases h
+
+theorem allEq_cons {t : Target} {fm : FieldMeta} {c : Arr} {r fs' : ArrFields} {i : Nat}
+    (h : allEq t (.cons fm c r) fs' i = true) :
+    ∃ fm' c' r', fs' = .cons fm' c' r' ∧ fm.name = fm'.name ∧ touchEq t c c' i = true ∧ allEq t r r' i = true := by
+  unfold allEq at h
+  split at h
+  · simp only [Bool.and_eq_true, decide_eq_true_eq] at h
+    exact ⟨_, _, _, rfl, h.1.1, h.1.2, h.2⟩
+  · cases h
+
+theorem namedEq_nil {tfs : TFields} {fs' : ArrFields} {i : Nat} (h : namedEq tfs .nil fs' i = true) : fs' = .nil := by
+  unfold namedEq at h
+  split at h
+  · rfl
+  · cases h
+
+theorem namedEq_cons {tfs : TFields} {fm : FieldMeta} {c : Arr} {r fs' : ArrFields} {i : Nat}
+    (h : namedEq tfs (.cons fm c r) fs' i = true) :
+    ∃ fm' c' r', fs' = .cons fm' c' r' ∧ fm.name = fm'.name ∧
+      (∀ tt, tfieldNamed tfs fm.name = some tt → touchEq tt c c' i = true) ∧
+      (tfieldNamed tfs fm.name = none → touchEqW true .any c c' i = true) ∧ namedEq tfs r r' i = true := by
+  unfold namedEq at h
+  split at h
+  · simp only [Bool.and_eq_true, decide_eq_true_eq] at h
+    refine ⟨_, _, _, rfl, h.1.1, ?_, ?_, h.2⟩
+    · intro tt htt
+      have h2 := h.1.2
+      simp only [htt] at h2
+      exact h2
+    · intro htt
+      have h2 := h.1.2
+      simp only [htt] at h2
+      exact h2
+  · cases h
+
+theorem tupleEq_cons_nil {t : Target} {ts : Targets} {fs' : ArrFields} {i : Nat} (h : tupleEq (.cons t ts) .nil fs' i = true) :
+    fs' = .nil := by
+  unfold tupleEq at h
+  split at h
+  · rfl
+  · cases h
+
+theorem tupleEq_cons_cons {t : Target} {ts : Targets} {fm : FieldMeta} {c : Arr} {r fs' : ArrFields} {i : Nat}
+    (h : tupleEq (.cons t ts) (.cons fm c r) fs' i = true) :
+    ∃ fm' c' r', fs' = .cons fm' c' r' ∧ touchEq t c c' i = true ∧ tupleEq ts r r' i = true := by
+  unfold tupleEq at h
+  split at h
+  · simp only [Bool.and_eq_true] at h
+    exact ⟨_, _, _, rfl, h.1, h.2⟩
+  · cases h
+
+theorem variantEq_zero {vt : String → Option Target} {tid : Int} {fm : FieldMeta} {c : Arr} {r fs' : ArrUFields} {j : Nat}
+    (h : variantEq vt (.cons tid fm c r) fs' 0 j = true) :
+    ∃ tid' fm' c' r', fs' = .cons tid' fm' c' r' ∧ fm.name = fm'.name ∧ ∀ t, vt fm.name = some t → touchEq t c c' j = true := by
+  unfold variantEq at h
+  split at h
+  · simp only [Bool.and_eq_true, decide_eq_true_eq] at h
+    refine ⟨_, _, _, _, rfl, h.1, ?_⟩
+    intro t ht
+    have h2 := h.2
+    simp only [ht] at h2
+    exact h2
+  · cases h
+
+theorem variantEq_succ {vt : String → Option Target} {tid : Int} {fm : FieldMeta} {c : Arr} {r fs' : ArrUFields} {k j : Nat}
+    (h : variantEq vt (.cons tid fm c r) fs' (k + 1) j = true) :
+    ∃ tid' fm' c' r', fs' = .cons tid' fm' c' r' ∧ variantEq vt r r' k j = true := by
+  unfold variantEq at h
+  split at h
+  · exact ⟨_, _, _, _, rfl, h⟩
+  · cases h
 
 end SaModel.Props.C17
